@@ -71,7 +71,7 @@ def star_collection(rng, max_vertices):
             return realise(rng, m, edges)
 
 def collection(rng, maxn, maxk, kind=None):
-    kind = kind or rng.choice(["random", "random", "sparse", "star", "star", "star+", "star-dep", "star-dep", "clo-dep", "path", "commuting", "union", "2local", "chain+", "chain+"])
+    kind = kind or rng.choice(["random", "random", "sparse", "star", "star", "star+", "star-dep", "star-dep", "clo-dep", "path", "commuting", "union", "2local", "chain+", "chain+", "eq-summands", "eq-summands"])
     if kind == "random":
         n = rng.randint(1, maxn)
         return [rs(rng, n) for _ in range(rng.randint(1, maxk))]
@@ -130,6 +130,31 @@ def collection(rng, maxn, maxk, kind=None):
         if rng.random() < 0.7:
             rng.shuffle(gs)
         return gs
+    if kind == "eq-summands":
+        # disconnected union whose components get the SAME algebra name (copies of so(3)): stars K_{1,k} realised on k qubits
+        # (centre X I.., legs Z I.., Z Z I.., Z I Z ..), k = 1 is a single edge {X, Z}; the copy counts 2^(k-1) must add up
+        comps, left = [], maxn
+        while left >= 1 and len(comps) < 3:
+            k = rng.choice([x for x in (1, 1, 2, 3, 3, 3, 4) if x <= left])
+            comps.append(k); left -= k
+            if len(comps) >= 2 and rng.random() < 0.4:
+                break
+        n = sum(comps)
+        out, off = [], 0
+        for k in comps:
+            loc = ["X" + "I" * (k - 1), "Z" + "I" * (k - 1)] + ["Z" + "I" * (i - 1) + "Z" + "I" * (k - 1 - i) for i in range(1, k)]
+            out += ["I" * off + t + "I" * (n - off - k) for t in loc]
+            off += k
+        perm = list(range(n)); rng.shuffle(perm)
+        relabel = [dict(zip("XYZ", rng.sample("XYZ", 3))) for _ in range(n)]
+        res = []
+        for t in out:
+            u = ["I"] * n
+            for q, ch in enumerate(t):
+                u[perm[q]] = ch if ch == "I" else relabel[q][ch]
+            res.append("".join(u))
+        rng.shuffle(res)
+        return res
     if kind == "chain+":
         # nearest-neighbour chain (two or three 2-local couplings translated along >= 5 qubits) plus long-range strings:
         # long legs that get cut and re-attached (steps IV / VI of the reduction)
